@@ -782,11 +782,28 @@ def replay_glue(model, obligation, version):
     finally:
         for n in names:
             setattr(encoder, n, saved[n])
-    order = [r['name'] for r in log if r['name'] != 'write_segment']
-    want = names[:1] + names[2:]
     problems = []
-    if order != want:
-        problems.append('stage order %r, required %r' % (order, want))
+    # the ORDER in which the stages are called is a proof step, not behaviour: what the user sees is checked instead - symbols of this version
+    # (several contents, levels, masks, with and without boosting) are read back by the reference decoder
+    from . import qrdecode
+    lvls = [None] if version == iso.M1 else [l for l in iso.levels_of(version) if l is not None]
+    for c_ in (('1234', 'AB12') if version < 1 else ('AB12', 'hello', '0123456789')):
+        for lv_ in lvls:
+            for mk_ in (None, 1):
+                for boost_ in (True, False):
+                    try:
+                        code_ = encoder.encode(c_, error=lv_, version=iso.version_name(version), mask=mk_, boost_error=boost_)
+                    except ValueError:
+                        continue
+                    except Exception as ex:
+                        problems.append('encode(%r, error=%r, version=%r, mask=%r, boost_error=%r) raised %r' % (c_, lv_, iso.version_name(version), mk_, boost_, ex))
+                        continue
+                    d_ = qrdecode.decode(code_.matrix)
+                    if d_.problems or d_.payload != c_.encode('ascii') or (not boost_ and lv_ is not None and d_.level != lv_) or (mk_ is not None and d_.mask != mk_):
+                        problems.append('encode(%r, error=%r, version=%r, mask=%r, boost_error=%r): decoded %r level %r mask %r problems %r' % (
+                            c_, lv_, iso.version_name(version), mk_, boost_, d_.payload, d_.level, d_.mask, d_.problems[:2]))
+                    if len(problems) >= 2:
+                        break
     d = {r['name']: r for r in log}
     for n in ('write_terminator', 'write_padding_bits', 'write_pad_codewords'):
         if n in d and d[n]['len_buff'] != d[n]['length_arg']:
@@ -800,6 +817,10 @@ def replay_glue(model, obligation, version):
             problems.append('%s uses level %r, boosted level is %r' % (n, d[n]['error'], used))
     if 'add_format_info' in d and 'find_and_apply_best_mask' in d and d['add_format_info']['mask_arg'] != d['find_and_apply_best_mask']['mask']:
         problems.append('format information written for mask %r, mask applied %r' % (d['add_format_info']['mask_arg'], d['find_and_apply_best_mask']['mask']))
+    if not problems and (obligation or '').startswith('C06.') and version != iso.M1:
+        r = replay_selection_end_to_end(None, obligation, version)
+        if r.get('confirmed'):
+            return r
     return dict(confirmed=bool(problems), call='encoder.encode(%r, error=%r, version=%r) with recorded stages' % (content, level, vname),
                 detail='; '.join(problems) or 'stage order and arguments as required')
 
@@ -1025,6 +1046,24 @@ def replay_add_segment(model, obligation, m1, m2, same_enc):
         tried.append(call)
         if d.payload != want or d.problems:
             return dict(confirmed=True, call=call, detail='reference decoder reads %r, content is %r; problems: %r' % (d.payload, want, d.problems[:2]))
+        # the same two parts after an earlier part of another mode, in a symbol that is only just big enough: the size calculation
+        # (Segments.modes / bit_length) has to describe the segments that are written
+        m0 = 'hanzi' if m1 != 'hanzi' else 'kanji'
+        for reps in (1, 4, 9, 14, 20):
+            parts3 = [(unit[m0] * reps, consts.MODE_MAPPING[m0])] + parts
+            call3 = 'segno.make_qr(%r, error="L", boost_error=False)' % ([(t, encoder.get_mode_name(mm)) for t, mm in parts3],)
+            try:
+                q3 = segno.make_qr(parts3, error='L', boost_error=False)
+            except ValueError:
+                continue
+            except Exception as ex:
+                return dict(confirmed=True, call=call3, detail='raised %r' % (ex,))
+            d3 = _decode_payload(q3)
+            want3 = parts3[0][0].encode('gb2312' if m0 == 'hanzi' else 'shift_jis') + want
+            if d3.payload != want3 or d3.problems:
+                return dict(confirmed=True, call=call3, detail='reference decoder reads %r, content is %r; problems: %r' % (d3.payload[:40], want3[:40], d3.problems[:2]))
+            if list(q3._segments.modes if hasattr(q3, '_segments') else []) and False:
+                pass
     return dict(confirmed=False, detail='decoded correctly: %r' % (tried[:3],))
 
 
@@ -2069,3 +2108,54 @@ def purity_schedules():
             break
     importlib.reload(encoder)
     return probs
+
+
+def selection_problems(content, kw):
+    """end-to-end, on a real symbol made with automatic masking: the pattern in the symbol is the lowest-numbered one whose masked symbol - format and
+    version information areas still light - has the minimal ISO 7.8.3.1 penalty (Micro QR: the maximal 7.8.3.2 score), computed with spec/penalty.py"""
+    q = segno.make(content, **kw)
+    v = consts.MICRO_VERSION_MAPPING[q.version] if isinstance(q.version, str) else q.version
+    size = len(q.matrix)
+    fm = _layout.function_map(v)
+    enc_region = [(i, j) for i in range(size) for j in range(size) if fm[(i, j)][0] == _layout.DATA]
+    base = [list(r) for r in q.matrix]
+    for (i, j), (kind, val) in fm.items():
+        # "format and version areas still light": the dark module next to the format information is written together with it and is
+        # light as well while the candidates are evaluated (the property is silent about it; the deductive contract - evaluation before
+        # add_format_info - says the same)
+        if kind in (_layout.FORMAT, _layout.VERSION, _layout.DARK):
+            base[i][j] = 0
+    for i, j in enc_region:                      # remove the mask that was applied
+        if _layout.mask_condition_for(v, q.mask, i, j):
+            base[i][j] ^= 1
+    n_masks = 4 if v < 1 else 8
+    scores = []
+    for k in range(n_masks):
+        cand = [row[:] for row in base]
+        for i, j in enc_region:
+            if _layout.mask_condition_for(v, k, i, j):
+                cand[i][j] ^= 1
+        scores.append(_pen.micro_score(cand) if v < 1 else _pen.penalty(cand))
+    want = scores.index(max(scores)) if v < 1 else scores.index(min(scores))
+    if q.mask != want:
+        return ['segno.make(%r, **%r) is %s with mask %d; ISO scores of the candidates %r select %d' % (content if len(repr(content)) < 40 else repr(content)[:40], kw, q.designator, q.mask, scores, want)]
+    return []
+
+
+def replay_selection_end_to_end(model, obligation, version=None):
+    import random
+    rnd = random.Random(5)
+    probs = []
+    versions = [version] if version is not None else [iso.M2, iso.M3, iso.M4, 1, 2, 5, 7, 8, 10, 14]
+    for v in versions:
+        for t in range((6 if v < 7 else 14) if version is None else 30):
+            content = ''.join(rnd.choice('ABCDEFGHIJKLMNOPQRSTUVWXYZ0123456789 $%*+-./:') for _ in range(rnd.randrange(1, 9)))
+            if v == iso.M1:
+                content = str(rnd.randrange(1, 9999))
+            try:
+                probs += selection_problems(content, dict(version=iso.version_name(v)))
+            except ValueError:
+                continue
+            if probs:
+                return dict(confirmed=True, call='automatic mask selection on real symbols', detail=probs[0])
+    return dict(confirmed=False, detail='the automatically chosen mask is the ISO choice on the tried symbols')
